@@ -424,6 +424,12 @@ pub fn check(case: &Case, res: &RunResult, status: &str) -> Vec<(String, String)
       if o.fut.is_some() && o.vals.len() > 1 && (o.polled_pending || o.cancelled.is_some()) {
         continue;
       }
+      // likewise a send future that never returned Ready (dropped, or simply not polled again: a rendezvous
+      // receiver may have taken its value from the registered waiter long before), and any rendezvous send
+      // future that was Pending once (the hand-off happens at the RECEIVER's time, not at the completing poll)
+      if o.fut.is_some() && (o.ret.is_none() || (rdv && o.polled_pending)) {
+        continue;
+      }
       for v in &o.vals {
         // broadcast contiguity is judged on the values that were actually sent
         if spmc && !sent_ok.contains_key(v) {
